@@ -116,7 +116,52 @@ func LoadEngine(repo string, verifDir string) (*Engine, error) {
 	if err := e.db.Finish(); err != nil {
 		return nil, err
 	}
+	e.expandShortKeys()
 	return e, nil
+}
+
+// expandShortKeys: contract keys written with a bare package name ("(*cluster.Context).Leave", "scheduler.New")
+// are rewritten to the full import path when that name is unique among the loaded packages.
+func (e *Engine) expandShortKeys() {
+	byName := map[string][]string{}
+	for _, p := range e.allTypesPkgs() {
+		byName[p.Name()] = append(byName[p.Name()], p.Path())
+	}
+	expand := func(key string) string {
+		// forms: "(*pkg.T).M", "(pkg.T).M", "pkg.F"
+		pre, rest := "", key
+		if strings.HasPrefix(rest, "(*") {
+			pre, rest = "(*", rest[2:]
+		} else if strings.HasPrefix(rest, "(") {
+			pre, rest = "(", rest[1:]
+		}
+		k := strings.Index(rest, ".")
+		if k <= 0 || strings.Contains(rest[:k], "/") {
+			return key
+		}
+		name := rest[:k]
+		if paths := byName[name]; len(paths) == 1 && paths[0] != name {
+			return pre + paths[0] + rest[k:]
+		}
+		return key
+	}
+	for k, b := range e.db.Funcs {
+		if nk := expand(k); nk != k {
+			if _, clash := e.db.Funcs[nk]; !clash {
+				delete(e.db.Funcs, k)
+				e.db.Funcs[nk] = b
+				b.Name = nk
+			}
+		}
+	}
+	for k, b := range e.db.Loops {
+		if nk := expand(k); nk != k {
+			if _, clash := e.db.Loops[nk]; !clash {
+				delete(e.db.Loops, k)
+				e.db.Loops[nk] = b
+			}
+		}
+	}
 }
 
 func (e *Engine) indexFunc(f *ssa.Function) {
@@ -215,6 +260,17 @@ func (e *Engine) globalFor(v *types.Var) *ssa.Global {
 // non-nil constants that are never reassigned (listed as an assumption).
 func (e *Engine) globalConst(fc *FnCtx, g *ssa.Global, st *State) (Val, bool) {
 	elem := g.Type().Underlying().(*types.Pointer).Elem()
+	_, elemIsPtr := elem.Underlying().(*types.Pointer)
+	if elemIsPtr && (strings.HasPrefix(g.Name(), "Err") || strings.HasPrefix(g.Name(), "err")) {
+		// package-level *Error sentinels: distinct non-nil pointer constants
+		name := "gerrp_" + sanitize(g.Pkg.Pkg.Path()+"."+g.Name())
+		if !fc.sc.funcs[name] {
+			fc.sc.DeclFun(name, nil, SPtr)
+			fc.sc.Assert(And(Gt(PObj(mk(SPtr, name)), IntLit(0)), Lt(PObj(mk(SPtr, name)), IntLit(100000)), Eq(PSlot(mk(SPtr, name)), IntLit(fc.eng.ti.BaseSlot(elem.Underlying().(*types.Pointer).Elem())))))
+		}
+		fc.note("package-level error sentinels are distinct non-nil constants, never reassigned")
+		return scalar(mk(SPtr, name)), true
+	}
 	if types.TypeString(elem, nil) == "error" && (strings.HasPrefix(g.Name(), "Err") || strings.HasPrefix(g.Name(), "err") || strings.HasPrefix(g.Name(), "EOF")) {
 		name := "gerr_" + sanitize(g.Pkg.Pkg.Path()+"."+g.Name())
 		if !fc.sc.funcs[name] {
@@ -373,6 +429,10 @@ func (e *Engine) VerifyFunc(key string) (res *FuncResult) {
 	for i, fv := range fn.FreeVars {
 		v := fc.freshVal("fv_"+fv.Name(), fv.Type())
 		fc.sc.Assert(fc.typeFacts(st, v, fv.Type()))
+		if v.T != nil && v.T.Sort == SPtr {
+			// a variable captured by reference: its cell always exists
+			fc.sc.Assert(Ne(PObj(v.T), IntLit(0)))
+		}
 		fr.freeBind[fv] = v
 		_ = i
 	}
